@@ -396,19 +396,26 @@ func R08(group string) Rule {
 		case "ReadRows", "ReadRows-filter-error":
 			fn := P.MustFunc(core.PkgBttest, "(*server).ReadRows")
 			c.Fn("(*server).ReadRows")
+			// ReadRows with the helpers / scan-state methods it is split into; the evaluator and the
+			// chunk builder are anchors of their own
+			stopAt := map[string]bool{"filterRow": true, "(*chunkBuilder).add": true, "validateRowRanges": true, "mergeRowRanges": true}
+			scope := P.Scope(fn, func(f *ssa.Function) bool { return stopAt[core.FuncName(f)] || core.PkgPathOf(f) != core.PkgBttest })
+			within := setOf(scope)
 			if group == "ReadRows" {
-				vcalls := callsTo(fn, core.PkgBttest, "validateRowRanges")
+				vcalls := scopeCallsTo(scope, core.PkgBttest, "validateRowRanges")
 				if len(vcalls) != 1 {
 					c.Unknown("R08", "ReadRows/validateRowRanges", fn.Pos(), "expected one validateRowRanges call, found %d", len(vcalls))
 					return
 				}
 				n := 0
-				for _, ci := range core.AllCalls(fn) {
-					if !isRowsMethod(ci, "Ascend", "AscendRange", "AscendLessThan", "AscendGreaterOrEqual") {
-						continue
-					}
+				for _, ci := range core.CallsIn(scope, func(ci *core.CallInfo) bool {
+					return isRowsMethod(ci, "Ascend", "AscendRange", "AscendLessThan", "AscendGreaterOrEqual")
+				}) {
 					n++
-					c.Check(errNilEdge(vcalls[0], ci.Instr.Block()), "R08", fmt.Sprintf("ReadRows/%s/after-range-validation", ci.Method.Name()), ci.Instr.Pos(),
+					validated := P.InAllContexts(ci.Instr, nil, within, func(at ssa.Instruction, _ []ssa.Value) bool {
+						return at.Parent() == vcalls[0].Parent() && errNilEdge(vcalls[0], at.Block())
+					})
+					c.Check(validated, "R08", fmt.Sprintf("ReadRows/%s/after-range-validation", ci.Method.Name()), ci.Instr.Pos(),
 						"scan is dominated by the nil edge of validateRowRanges", "a scan is started although validateRowRanges did not pass: inverted ranges are scanned instead of rejected")
 					// dispatch slots: range start only into lower-bound, end only into upper-bound parameters
 					args := ci.Common.Args
@@ -435,15 +442,21 @@ func R08(group string) Rule {
 					c.Unknown("R08", "ReadRows/floor", fn.Pos(), "expected four scan dispatch sites, found %d", n)
 				}
 				// rows_limit is tested at the start of every callback invocation, before a row is added
-				var limitVal ssa.Value
-				for _, b := range fn.Blocks {
-					for _, in := range b.Instrs {
-						if cv, ok := in.(*ssa.Convert); ok && loadsField(cv.X, "RowsLimit") {
-							limitVal = cv
+				isLimit := func(v ssa.Value) bool {
+					return provenanceAll(P, core.PkgBttest, v, func(o ssa.Value) (bool, bool) {
+						if loadsField(o, "RowsLimit") {
+							return true, true
 						}
-					}
+						if call, ok := o.(*ssa.Call); ok && call.Call.StaticCallee() != nil && call.Call.StaticCallee().Name() == "GetRowsLimit" {
+							return true, true
+						}
+						if _, isConst := o.(*ssa.Const); isConst {
+							return true, false
+						}
+						return false, false
+					})
 				}
-				for _, f := range core.Family(fn) {
+				for _, f := range scope {
 					for _, ci := range core.AllCalls(f) {
 						if !ci.IsFunc(core.PkgBttest, "(*chunkBuilder).add") || f == fn {
 							continue
@@ -458,10 +471,6 @@ func R08(group string) Rule {
 							bin, ok := ifi.Cond.(*ssa.BinOp)
 							if !ok {
 								continue
-							}
-							isLimit := func(v ssa.Value) bool {
-								rv := core.Resolve(v)
-								return limitVal != nil && (rv == limitVal || rv == core.Resolve(limitVal))
 							}
 							switch {
 							case bin.Op == token.GTR && isLimit(bin.X): // limit > 0 : false edge = unlimited
@@ -498,7 +507,7 @@ func R08(group string) Rule {
 			// filter error plumbing
 			var cb *ssa.Function
 			var fcall *ssa.Call
-			for _, f := range core.Family(fn) {
+			for _, f := range scope {
 				for _, call := range callsTo(f, core.PkgBttest, "filterRow") {
 					cb, fcall = f, call
 				}
@@ -507,21 +516,25 @@ func R08(group string) Rule {
 				c.Unknown("R08", "ReadRows-filter-error/callback", fn.Pos(), "filterRow is not called from the scan callback")
 				return
 			}
-			// (1) the error result is stored in a variable of the enclosing function
-			var errCell *ssa.Alloc
+			// (1) the error result is kept where ReadRows can see it: a variable of ReadRows captured
+			// by the callback, or a field of the scan-state struct
+			errLoc := ""
 			for _, r := range core.Referrers(fcall) {
 				if ex, ok := r.(*ssa.Extract); ok && ex.Index == 1 {
 					for _, rr := range core.Referrers(ex) {
 						if st, ok := rr.(*ssa.Store); ok {
-							if cell := core.CellOf(st.Addr); cell != nil && cell.Parent() == fn {
-								errCell = cell
+							if cell := core.CellOf(st.Addr); cell != nil && cell.Parent() != fn {
+								continue // a variable local to the callback
+							}
+							if loc := locationOf(st.Addr); loc != "" {
+								errLoc = loc
 							}
 						}
 					}
 				}
 			}
-			c.Check(errCell != nil, "R08", "ReadRows-filter-error/stored", fcall.Pos(), "the filter's error is stored in a variable of ReadRows", "the filter's error is not handed to ReadRows")
-			if errCell == nil {
+			c.Check(errLoc != "", "R08", "ReadRows-filter-error/stored", fcall.Pos(), "the filter's error is stored in a variable of ReadRows", "the filter's error is not handed to ReadRows")
+			if errLoc == "" {
 				return
 			}
 			// (2) the callback stops the scan on that error
@@ -530,7 +543,7 @@ func R08(group string) Rule {
 				if bv, ok := core.ConstBool(r.Results[0]); ok && !bv {
 					for _, f := range core.FactsAt(r.Block()) {
 						if b, ok := f.Cond.(*ssa.BinOp); ok && core.IsNilConst(b.Y) && (b.Op == token.NEQ) == f.Polarity {
-							if ld, ok := core.Strip(b.X).(*ssa.UnOp); ok && core.CellOf(ld.X) == errCell {
+							if loadedLocation(b.X) == errLoc {
 								stop = true
 							}
 						}
@@ -542,7 +555,7 @@ func R08(group string) Rule {
 			rets := false
 			for _, r := range returnsIn(fn) {
 				for _, rv := range returnValues(r.Results[0]) {
-					if ld, ok := core.Strip(rv).(*ssa.UnOp); ok && core.CellOf(ld.X) == errCell {
+					if loadedLocation(rv) == errLoc {
 						rets = true
 					}
 				}
@@ -552,7 +565,7 @@ func R08(group string) Rule {
 		case "finishUpload":
 			fn := P.MustFunc(core.PkgGcsemu, "(*GcsEmu).finishUpload")
 			c.Fn("(*GcsEmu).finishUpload")
-			scope := P.Scope(fn, func(f *ssa.Function) bool { return f.Pkg == nil || f.Pkg.Pkg.Path() != core.PkgGcsemu })
+			scope := P.Scope(fn, func(f *ssa.Function) bool { return core.PkgPathOf(f) != core.PkgGcsemu })
 			within := setOf(scope)
 			var run *ssa.Call
 			for _, ci := range core.CallsIn(scope, func(ci *core.CallInfo) bool { return ci.MethodOn(core.PkgGcsutil, "TransientLockMap", "Run") }) {
